@@ -290,6 +290,7 @@ impl Property for C16S {
             events.push(Event { trig: Trigger::Iter(k + 5 + rng.below(4)), act: Action::Lines(vec!["cmd:start".into()]) });
         }
         let cfg = SysCfg { wait_start: false, clock: gen_clock_model(rng), clock_seed: rng.next_u64(), step_cap: est * 4 + 2000, print_msgs: rng.chance(1, 8), print_opcode: false };
+        one_line_per_poll(&mut events);
         Scn { guest, events, cfg }
     }
 
